@@ -73,25 +73,37 @@ def answer (c : Td.Cfg) (s : Td.St) (ws : List String) : Td.Cfg × Td.St × Stri
       | _ => (c, s, "bad-op")
     else if v == "dropent" then
       match p.toNat? with
-      | some p => (c, Td.dropEntity c s p (parseEnt w), "done")
+      -- the device information entity [0] is kept, every other listed entity goes with the full cascade
+      | some p => (c, (parseEnts w).foldl (fun s e => if e = [0] then s else Td.dropEntity c s p e) s, "done")
+      | none => (c, s, "bad-op")
+    else if v == "addent" then
+      match p.toNat? with
+      | some p => (c, { s with reg := addEntity s.reg p (parseEnt w) }, "done")
       | none => (c, s, "bad-op")
     else if v == "notify" then
       match w.toNat? with
       | some sf => (c, s, showTargets (Reg.notifyTargets s.reg (parseEnt p) sf))
       | none => (c, s, "bad-op")
     else (c, s, "bad-op")
+  | ["late", p] => match p.toNat? with
+    | some p => (c, { s with late := p :: s.late }, "done")
+    | none => (c, s, "bad-op")
+  | ["discover", p] => match p.toNat? with
+    | some p => (c, { s with late := s.late.filter (· ≠ p) }, "done")
+    | none => (c, s, "bad-op")
   | ["fire"] => (c, Td.fire s, showFired s)
   | ["chas", p] => match p.toNat? with
     -- the local client's bookkeeping for the servers [1]/4 and [1,1]/4 of peer p, and node management's subscription
     | some p =>
       let has (l : List Td.Book) (e : List Nat) := if l.any (fun x => x.peer = p && x.ent = e && x.feat = 4) then "1" else "0"
-      (c, s, s!"{has s.csubs [1]} {has s.cbinds [1]} {has s.csubs [1, 1]} {has s.cbinds [1, 1]} {if s.alive.contains p then "1" else "0"}")
+      (c, s, s!"{has s.csubs [1]} {has s.cbinds [1]} {has s.csubs [1, 1]} {has s.cbinds [1, 1]} {if s.alive.contains p && !s.late.contains p then "1" else "0"}")
     | none => (c, s, "bad-op")
   | ["drop", p] => match p.toNat? with
     | some p => (c, Td.drop c s p, "done")
     | none => (c, s, "bad-op")
   | ["resolve", p] => match p.toNat? with
-    | some p => (c, s, if s.alive.contains p then "1" else "0")
+    -- by SKI and by device address (the latter is known from the discovery reply on)
+    | some p => (c, s, if s.alive.contains p && !s.late.contains p then "1" else "0")
     | none => (c, s, "bad-op")
   | ["read", p] => match p.toNat? with
     -- the reading client feature [1]/1 of peer p must still be announced
